@@ -242,7 +242,26 @@ class MTree:
         if with_clones:
             victims = [x for x in self.all() if x.data_id == n.data_id]
             if keep_children and len(victims) > 1:
-                return Unspec("keep_children combined with with_clones on a clone group")
+                # determined only if the clones are not nested and no un-nesting can collide
+                for v in victims:
+                    if any(self.inside(w, v) for w in victims if w is not v):
+                        return Unspec("keep_children + with_clones on nested clones")
+                    if self.typed and v.children:
+                        return Unspec("typed")
+                    others = [c for c in self.kids(self.parent_of(v)) if c is not v]
+                    ids = [c.data_id for c in v.children]
+                    if any(o.data_id in ids for o in others):
+                        return Unspec("keep_children + with_clones with a possible collision")
+                parents = [self.parent_of(v) for v in victims]
+                if len({id(p) for p in parents}) != len(parents):
+                    return Unspec("two clones below one parent")
+                # a child of one victim must not be the parent of another victim
+                for v in victims:
+                    K = self.kids(self.parent_of(v))
+                    i = next(k for k, c in enumerate(K) if c is v)
+                    K[i:i + 1] = v.children
+                    v.children = []
+                return Ok(("none",), removed=victims)
         if keep_children:
             p = self.parent_of(n)
             K = self.kids(p)
